@@ -33,7 +33,9 @@ BASE_URLS = ['/', '/pre/', '/a/b']
 T1 = {'base': 'base.ipynb', 'local': 'local.ipynb', 'remote': 'remote.ipynb'}
 T2 = {'base': 'sub/base2.ipynb', 'local': 'sub/local 2.ipynb', 'remote': 'sub/remöte2.ipynb'}
 BAD_FILES = {'text.ipynb': b'hello, this is not a notebook\n', 'json.ipynb': b'{"a": 1}', 'list.ipynb': b'[1, 2]',
-             'empty.ipynb': b''}
+             'empty.ipynb': b'',
+             # what an interrupted save leaves behind: the first one to three characters of a notebook
+             'tiny.ipynb': b'{', 'tiny3.ipynb': b'{ "'}
 NOT_NOTEBOOKS = [5, 'x', [1], None, {}, {'foo': 1}, {'cells': 3}, True]
 
 
@@ -229,7 +231,7 @@ def gen_mode(rnd, index):
         u = rnd.random()
         # special: None | base is the explicit missing file | unreadable argument | (merge tool) empty base file
         mode['special'] = (None if u < 0.6 else 'missing-base' if u < 0.72 else 'empty-base' if u < 0.84 else
-                           rnd.choice(['bad-text', 'bad-nofile', 'bad-json']))
+                           rnd.choice(['bad-text', 'bad-nofile', 'bad-json', 'bad-tiny', 'bad-tiny3']))
     return mode
 
 
@@ -253,6 +255,8 @@ def tool_args(mode):
         names[victim], ok = 'json.ipynb', False
     elif sp == 'bad-nofile':
         names[victim], ok = 'nonexistent.ipynb', False
+    elif sp in ('bad-tiny', 'bad-tiny3'):
+        names[victim], ok = sp[4:] + '.ipynb', False
     return names, ok
 
 
